@@ -49,9 +49,42 @@ func agentIDName(i int) string {
 	return string(rune('A' + i))
 }
 
+// c13IDVariant > 0 replaces ids B and C by ids that a table keyed on a digest of the 96-bit id would confuse
+// with A: equal under an xor/sum fold of two of the three 32-bit words, a rotation of the words, the same bytes
+// in another order.
+var c13IDVariant int
+
 func agentID(i int) (id [12]byte) {
 	// ids that collide as hard as possible: differ in one bit of byte 0 / byte 11
 	id = [12]byte{0x10, 1, 2, 3, 4, 5, 6, 7, 8, 9, 10, 0x20}
+	if c13IDVariant > 0 && (i == 1 || i == 2) {
+		d := [4]byte{0x80, 0x01, 0x00, 0x7F}
+		xw := func(w int) {
+			for j := 0; j < 4; j++ {
+				id[4*w+j] ^= d[j]
+			}
+		}
+		switch c13IDVariant*10 + i {
+		case 11:
+			xw(1)
+			xw(2)
+		case 12:
+			xw(0)
+			xw(2)
+		case 21:
+			xw(0)
+			xw(1)
+		case 22:
+			id = [12]byte{8, 9, 10, 0x20, 0x10, 1, 2, 3, 4, 5, 6, 7}
+		case 31:
+			for l, r := 0, 11; l < r; l, r = l+1, r-1 {
+				id[l], id[r] = id[r], id[l]
+			}
+		case 32:
+			id[0], id[11] = id[11], id[0]
+		}
+		return id
+	}
 	switch i {
 	case 1:
 		id[0] ^= 0x01
@@ -556,6 +589,39 @@ func init() {
 				}
 			}
 			rrec(0)
+			// 2c. every sequence one level shallower with ids B and C replaced by ids that a digest of A would collide with
+			vdepth := depth - 1
+			for v := 1; v <= 3; v++ {
+				c13IDVariant = v
+				vseq := make([]agentOp, vdepth)
+				var vitem int64
+				var vrec func(pos int)
+				vrec = func(pos int) {
+					if pos == vdepth {
+						c.Eval(1)
+						c.DistinctByConstruction++
+						c.Res.Traces++
+						if _, key, detail := c13RunSeq(vseq); key != "" {
+							c.Violation(key, detail, map[string]interface{}{"idvariant": v, "ops": append([]agentOp(nil), vseq...)})
+							return
+						}
+						c.Outcome("confusable-ids")
+						return
+					}
+					for _, op := range alpha {
+						vseq[pos] = op
+						if pos == 1 {
+							vitem++
+							if !c.Mine(vitem) {
+								continue
+							}
+						}
+						vrec(pos + 1)
+					}
+				}
+				vrec(0)
+			}
+			c13IDVariant = 0
 			// 3. many ids at one Collect: n = 0..300 transactions, all / half / none of them expired
 			for n := 0; n <= 300; n++ {
 				if !c.Mine(int64(n)) {
@@ -614,6 +680,18 @@ func init() {
 				if key, d := c13Many(*many.N, many.K); key != "" {
 					c.Violation(key, d, map[string]int{"many_n": *many.N, "many_k": many.K})
 				}
+				return
+			}
+			var iv struct {
+				V   int       `json:"idvariant"`
+				Ops []agentOp `json:"ops"`
+			}
+			if json.Unmarshal(p, &iv) == nil && iv.V != 0 {
+				c13IDVariant = iv.V
+				if _, key, detail := c13RunSeq(iv.Ops); key != "" {
+					c.Violation(key, detail, map[string]interface{}{"idvariant": iv.V, "ops": iv.Ops})
+				}
+				c13IDVariant = 0
 				return
 			}
 			var re struct {
